@@ -1040,6 +1040,15 @@ def _read_unary_response(
     except RpcError:
         _drain_stream(reader)
         raise
+    except (pa.ArrowInvalid, OSError, EOFError):
+        raise
+    except Exception:
+        # Not a wire failure (typically the caller's on_log callback raised):
+        # the rest of this response is still on the transport and would be
+        # read as the start of the next call's response.
+        with contextlib.suppress(pa.ArrowInvalid, OSError, EOFError):
+            _drain_stream(reader)
+        raise
     try:
         _drain_stream(reader)
         if not info.has_return:
